@@ -69,6 +69,8 @@ def loop_clauses(body):
             if pi["idx"]:
                 inv.append("0 <= %s && %s < %s" % (pi["idx"], pi["idx"], pi["bound"]))
         inv += own(info)
+        if info["idx"]:
+            inv.append("0 <= %s" % info["idx"])
         # a vector loop writes the elements of its target and the cursor, besides what the verifier finds by itself
         # (the shared `length` cell, objects allocated by the iteration)
         if info["kind"] == "vec":
@@ -151,6 +153,68 @@ def idl_structs(pkg):
             mem.append((int(mm.group(1)), mm.group(2) == "require", ty, mm.group(4), mm.group(5).strip() if mm.group(5) else None))
         out[m.group(1)] = mem
     return out
+
+def idl_interfaces(pkg):
+    """[(interface, [(op, returns_value, [(is_out, type, name)])])] parsed from the .tars file"""
+    text = open(IDLFILE.get(pkg, "%s/tars/protocol/res/%s" % (REPO, IDL.get(pkg, "")))).read()
+    text = re.sub(r'/\*.*?\*/', '', text, flags=re.S)
+    text = re.sub(r'//[^\n]*', '', text)
+    out = []
+    for m in re.finditer(r'\binterface\s+(\w+)\s*\{(.*?)\}\s*;', text, re.S):
+        ops = []
+        for mm in re.finditer(r'([\w<>, ]+?)\s+(\w+)\s*\(([^)]*)\)\s*;', m.group(2)):
+            args = []
+            for a in [x.strip() for x in mm.group(3).split(',') if x.strip()]:
+                w = a.split()
+                args.append((w[0] == "out", " ".join(w[1:-1]) if w[0] == "out" else " ".join(w[:-1]), w[-1]))
+            ops.append((mm.group(2), mm.group(1).strip() != "void", args))
+        out.append((m.group(1), ops))
+    return out
+
+def upper1(s):
+    return s[0].upper() + s[1:]
+
+def iface_contracts(pkg):
+    """Wire agreement of the generated proxies and dispatcher with the IDL (C16/C01): parameter number i of an
+    operation travels under tag i+1 in both directions, the return value under tag 0, and in the TUP encoding every
+    attribute is its own buffer read and written under tag 0. The clauses speak about the codec calls of each
+    function in source order (`site ).Read#k`: the k-th call of a Read* / ReadBlock method; `$2` is its tag argument);
+    `sites` pins their number, so a call that the IDL does not account for fails too. Parameters of container type
+    are read and written by inline code (no single call carries the tag): operations that have one are skipped."""
+    o = []
+    for iface, ops in idl_interfaces(pkg):
+        drd, dwr = [], []
+        skipped = False
+        for op, hasret, args in ops:
+            if any(('<' in t or '[' in t) for _, t, _ in args):
+                skipped = True
+                continue
+            ins = [(i + 1) for i, (out, _, _) in enumerate(args) if not out]
+            outs = [(i + 1) for i, (out, _, _) in enumerate(args) if out]
+            alls = [(i + 1) for i in range(len(args))]
+            ret = [0] if hasret else []
+            loops6 = ["//@   loop %d invariant true\n//@   loop %d modifies everything" % (k, k) for k in range(6)]
+            # proxy: every parameter is written under its tag; the reply carries the return value and the out parameters
+            o += ["//@ func (*%s).%sWithContext" % (iface, upper1(op)), "//@   noframe"]
+            o += ["//@   site ).Write#%d assert [C16] $2 == %d" % (k, t) for k, t in enumerate(alls)]
+            o += ["//@   sites ).Write = %d" % len(alls)]
+            rd = ret + outs
+            o += ["//@   site ).Read#%d assert [C16] $2 == %d" % (k, t) for k, t in enumerate(rd)]
+            o += ["//@   sites ).Read = %d" % len(rd)] + loops6 + ["//"]
+            o += ["//@ func (*%s).%sOneWayWithContext" % (iface, upper1(op)), "//@   noframe"]
+            o += ["//@   site ).Write#%d assert [C16] $2 == %d" % (k, t) for k, t in enumerate(alls)]
+            o += ["//@   sites ).Write = %d" % len(alls), "//@   sites ).Read = 0", "//"]
+            # dispatcher, per operation: TARS branch then TUP branch
+            drd += ins + [0] * len(ins)
+            dwr += ret + outs + [0] * len(ret + outs) + [None]  # the JSON reply is one untagged byte-slice write
+        if skipped:
+            continue  # the ordinals of Dispatch would not line up; nothing is claimed about this interface's dispatcher
+        o += ["//@ func (*%s).Dispatch" % iface, "//@   noframe"]
+        o += ["//@   site ).Read#%d assert [C16] $2 == %d" % (k, t) for k, t in enumerate(drd)]
+        o += ["//@   sites ).Read = %d" % len(drd)]
+        o += ["//@   site ).Write#%d assert [C16] $2 == %d" % (k, t) for k, t in enumerate(dwr) if t is not None]
+        o += ["//@   sites ).Write = %d" % len(dwr), "//"]
+    return o
 
 def go_fields(src, ty):
     """{idl name: (Go field, tag, required)} from the struct tags of the generated struct"""
@@ -315,6 +379,9 @@ def main():
         GOFILE[pkg] = a[a.index("--go") + 1]
         IDLFILE[pkg] = a[a.index("--idl") + 1]
         text = gen(pkg)
+        ic = iface_contracts(pkg)
+        if ic:
+            text = text.rstrip("\n") + "\n//\n" + "\n".join(ic).rstrip("/\n") + "\n"
         open(os.path.join(os.path.dirname(GOFILE[pkg]), "contracts_verif.go"), "w").write(text)
         return
     for pkg in pkgs:
